@@ -458,6 +458,12 @@ def reorder_mappings(t):
     return t
 
 
+def _derive(valida, T):
+    S = valida.Schema([])
+    S.add_schema(T, root_path=valida.DataPath("vf_root"))
+    return T, S
+
+
 def run(case, ctx):
     kind, xt, yt, atom, probes = case["kind"], case["x"], case["y"], case["atom"], case["probes"]
     xr = reorder_mappings(xt)
@@ -560,6 +566,30 @@ def run(case, ctx):
         ok1, e1 = call(lambda: a == b)
         if ok1 and e1 != eqs.get(name):
             ctx.violate(f"C14/eq-changed-after-use/{kind}", f"{name}: == was {eqs.get(name)} before the objects were used and {e1} after\n a={a!r}\n b={b!r}")
+    # objects DERIVED from x after x has been compared (round 12): add_schema re-roots copies of x's rules; a re-rooted copy
+    # that still compares equal to its original (an equality memo carried over by copy.copy) must then behave like it
+    if kind in ("rule", "schema"):
+        import valida
+        okd, der = call(lambda: _derive(valida, x1 if kind == "schema" else valida.Schema([x1])))
+        if okd:
+            T, S = der
+            ctx.count("derived:re-rooted-after-comparison")
+            wrapped = [{"vf_root": M.deep_copy(pr)} for pr in probes] + [dict(M.deep_copy(pr), vf_root=M.deep_copy(pr)) for pr in probes if type(pr) is dict]
+            for r in T.rules:
+                for rd in S.rules:
+                    okq, e = call(lambda: (r == rd, rd == r))
+                    if okq and (e[0] or e[1]):
+                        ctx.count("derived:rule-pairs-that-compare-equal")
+                        b1, b2 = behaviour("rule", r, None, wrapped), behaviour("rule", rd, None, wrapped)
+                        if e[0] != e[1] or b1 != b2:
+                            ctx.violate(f"C14/equal-but-differs/{kind}/re-rooted-copy", f"a rule and its copy re-rooted by add_schema compare {e} "
+                                        f"but behave differently:\n {r!r}\n {rd!r}\n {str(b1)[:200]}\n {str(b2)[:200]}")
+            okq, e = call(lambda: (T == S, S == T))
+            if okq and (e[0] or e[1]):
+                b1, b2 = behaviour("schema", T, None, wrapped), behaviour("schema", S, None, wrapped)
+                if e[0] != e[1] or b1 != b2:
+                    ctx.violate(f"C14/equal-but-differs/{kind}/re-rooted-schema", f"a schema and the schema it was added to under a root compare {e} "
+                                f"but behave differently:\n {T!r}\n {S!r}")
     for name, detail in mon.CONTRACTS.take():
         ctx.violate(f"C14/contract:{name}", detail)
     ctx.count("kind:" + kind)
